@@ -11,6 +11,8 @@ to /repo and every scratch worktree is removed again."""
 import argparse, glob, json, os, re, subprocess, sys
 
 VERIF = os.path.dirname(os.path.abspath(__file__))
+# revert-b9f1575e ([T,T] at a forced surface) is not listed: it needs a point on a polygon vertex whose depth surface
+# lookup throws, which the quick tier does not reach (found by the thorough tier of C01, one run in 46 000)
 REVERT_PROPS = {"11c231ff": ["C12"], "b1598b18": ["C17"], "6f04c581": ["C12"], "ee272b9c": ["C12"], "47aaac4c": ["C12"], "3e27d57a": ["C12"],
                 "3b300340": ["C12"], "65aa6b83": ["C12"], "fb01c9c5": ["C16"], "3da0c043": ["C07"], "a002ea58": ["C01", "C12"], "e1cd260f": ["C01"],
                 "3b4624e1": ["C01"], "300f347a": ["C12"], "73cf7893": ["C12"], "ca21fd44": ["C12"], "ca21fd44": ["C12"], "38279454": ["C12", "C14"]}
